@@ -11,12 +11,12 @@ import glob, json, os, re, subprocess
 from vlib import *
 
 CLEAN_TAIL = "st=0/0/0/0 after=ok log2=999 st2=0/0/0/0"
-NKINDS = 19
-APIS = ("run", "call", "try")
+NKINDS = 21
+APIS = ("run", "call", "try", "errstr")
 KIND_NAMES = ["getter", "forEach", "sortcmp", "generator", "nestedRun", "callable", "nestedRun-swallow",
               "callable-swallow", "toString", "proxytrap", "ctor", "Reflect.apply", "toJSON",
               "callable-wrap%w", "callable-wrapJoin", "nestedRun-wrap%w", "nestedRun-wrapJoin", "reflect-returns-wrapped",
-              "callable-wrapNested"]
+              "callable-wrapNested", "exception.Error()-toString", "exception.String()-toString"]
 
 
 # ------------------------------------------------------------------ program generator (tree = list of tuples)
@@ -64,13 +64,16 @@ class Gen:
             fin = [("L", self.lid())] + self.block(depth + 1, "finally", 1) if f else []
             return ("Y", c, f, body, cat, fin)
         if x < 0.80:
-            kind = r.randrange(13, NKINDS) if r.random() < 0.35 else r.randrange(NKINDS)
+            kind = r.randrange(13, NKINDS) if r.random() < 0.4 else r.randrange(NKINDS)
             reps = r.randint(1, 3) if kind == 1 else 1
             return ("N", kind, reps, self.block(depth + 1, KIND_NAMES[kind]))
         if x < 0.87:
             return ("Q", self.block(depth + 1, "job"))
-        if x < 0.93:
+        if x < 0.905:
             return ("A", self.block(depth + 1, "async-pre"), self.block(depth + 1, "async-post"))
+        if x < 0.93:
+            return ("B", self.block(depth + 1, "chain-inner-pre", 1), self.block(depth + 1, "chain-inner-post"),
+                    self.block(depth + 1, "chain-outer-post", 1))
         return ("F", r.randint(0, 2), r.randint(0, 1), self.block(depth + 1, "iter-next", 1),
                 self.block(depth + 1, "forof-body"), [("L", self.lid())] + self.block(depth + 1, "iter-return", 1))
 
@@ -93,6 +96,8 @@ def render(block):
             out += ["Q", render(s[1])]
         elif op == "A":
             out += ["A", render(s[1]), render(s[2])]
+        elif op == "B":
+            out += ["B", render(s[1]), render(s[2]), render(s[3])]
         elif op == "F":
             out += ["F", str(s[1]), str(s[2]), render(s[3]), render(s[4]), render(s[5])]
     out.append(")")
@@ -117,11 +122,11 @@ def shrink_candidates(block):
 
 def may_leak(prog_text):
     t = prog_text.split()
-    return "A" in t or any(t[i] == "N" and int(t[i + 1]) % NKINDS == 3 for i in range(len(t) - 1))
+    return "A" in t or "B" in t or any(t[i] == "N" and int(t[i + 1]) % NKINDS == 3 for i in range(len(t) - 1))
 
 
 # ------------------------------------------------------------------ parsing answers
-ANS = re.compile(r"^res=(\S*) log=(\S*) st=(\S+) after=(\S+) log2=(\S*) st2=(\S+)$")
+ANS = re.compile(r"^res=(\S*) log=(\S*) st=(\S+) after=(\S+) log2=(\S*) st2=(\S+)(?: post=(\S+))?$")
 
 
 def parse_ans(line):
@@ -129,7 +134,7 @@ def parse_ans(line):
     if not m:
         return None
     return {"res": m.group(1), "log": m.group(2), "st": m.group(3), "after": m.group(4), "log2": m.group(5),
-            "st2": m.group(6)}
+            "st2": m.group(6), "post": m.group(7)}
 
 
 def tail(a):
@@ -153,54 +158,52 @@ def cut_log(full, k):
 
 
 def spec_judge(case, ans, base):
-    """The property itself, judged on the implementation's answer. `base` = answer of the same program/api with k=0,
-    pre=none (the uninterrupted run).  Returns None or a symptom string."""
+    """The property itself, judged on the implementation's answer. `base` = answer of the same program/entry point with
+    k=0, pre=none (the uninterrupted run).  Returns None or a symptom string."""
     if ans is None:
         return "harness-error"
-    k, v, pre, w = case["k"], case["v"], case["pre"], case["w"]
-    exp_res, exp_log = None, None
+    if ans.get("post") not in (None, "ok"):
+        # reusability: stack traces identical to a fresh runtime's, VM not pointing at an async runner
+        return ans["post"].split(":")[0]
+    api, k, v, pre, w = case["api"], case["k"], case["v"], case["pre"], case["w"]
+    hit = cut_log(base["log"], k) if (pre != "intr" and k > 0 and base is not None) else None
     if pre == "intr":
-        exp_res, exp_log = "intr:%d" % w, ""
-    elif k > 0 and base is not None:
-        c = cut_log(base["log"], k)
-        if c is not None:
-            exp_res, exp_log = "intr:%d" % v, c
-    if exp_res is None:
-        if base is not None:
-            exp_res, exp_log = base["res"], base["log"]
-        elif ans["res"].startswith("intr"):
+        exp_res, exp_log, exp_intr = "intr:%d" % w, "", True
+    elif hit is not None:
+        # entry point `errstr`: the interrupt hits the toString() run by err.Error() at depth 0 and is swallowed there
+        exp_res, exp_log, exp_intr = ("errstr:placeholder" if api == "errstr" else "intr:%d" % v), hit, True
+    elif base is not None:
+        exp_res, exp_log, exp_intr = base["res"], base["log"], False
+    else:
+        exp_res, exp_log, exp_intr = None, None, False
+        if ans["res"].startswith("intr"):
             return "spurious-interrupt"
     if exp_res is not None:
         if ans["res"] != exp_res:
-            if exp_res.startswith("intr") and not ans["res"].startswith("intr"):
+            if exp_intr and not (ans["res"].startswith("intr") or ans["res"] == "errstr:placeholder"):
                 return "interrupt-lost"
-            if exp_res.startswith("intr"):
-                return "wrong-value"
-            return "wrong-result"
+            return "wrong-value" if exp_intr else "wrong-result"
         if ans["log"] != exp_log:
-            if exp_res.startswith("intr") and ans["log"].startswith(exp_log):
+            if exp_intr and ans["log"].startswith(exp_log):
                 return "script-code-ran-after-interrupt"
             return "wrong-log"
-    if ans["st"].split("/")[0] != "0":
+    f, j, cdepth, tdepth = ans["st"].split("/")
+    if f != "0":
         return "flag-not-cleared"
-    interrupted = ans["res"].startswith("intr")
-    if case["api"] == "try" and not interrupted:
-        # Runtime.Try returns without draining the job queue; the jobs run in the follow-up call
-        f, j, cdepth, tdepth = ans["st"].split("/")
+    if api in ("try", "errstr") and not exp_intr:
+        # Runtime.Try / Exception.Error() return without draining the job queue; the jobs run in the follow-up call
         if cdepth != "0" or tdepth != "0" or ans["st2"] != "0/0/0/0":
             return "vm-stacks-not-unwound"
         if ans["after"] != "ok" or not (ans["log2"] == "999" or ans["log2"].startswith("999,")):
             return "runtime-not-reusable"
         return None
-    if ans["st"].split("/")[1] != "0":
+    if j != "0":
         return "job-queue-not-dropped"
     if ans["after"] != "ok" or ans["log2"] != "999":
         return "runtime-not-reusable"
     if ans["st"] != "0/0/0/0" or ans["st2"] != "0/0/0/0":
         return "vm-stacks-not-unwound"
     return None
-
-
 
 
 def case_line(c):
@@ -378,7 +381,7 @@ def main(ctx):
             stats["api"][c["api"]] = stats["api"].get(c["api"], 0) + 1
             ll = min(len([e for e in a["log"].split(",") if e]), 30) // 5 * 5
             stats["log_len"][ll] = stats["log_len"].get(ll, 0) + 1
-            if rk == "intr":
+            if rk == "intr" or (c["api"] == "errstr" and c["k"] > 0 and a["res"] == "errstr:placeholder"):
                 interrupted += 1
                 # distinct non-trivial = an interrupted run, keyed by program, api, cut position and pre-state
                 ctx.nontriv((c["prog"], c["api"], a["log"], c["pre"]))
@@ -484,7 +487,7 @@ def main(ctx):
 
     # 3b. deterministic interrupts at the n-th native call of fixed scripts (the soak scripts), judged against the spec
     TICK_SCRIPTS = ["loop", "tryfinally", "nestedfinally", "foreach", "getter", "generator", "iterator", "iterator-native-return", "sort", "job",
-                    "jobchain", "nested", "callgo", "async", "catchloop"]
+                    "jobchain", "nested", "callgo", "async", "asyncchain", "asyncchain3", "catchloop"]
     nmax = 8 if quick else 40
     tlines = []
     for sc in TICK_SCRIPTS:
@@ -498,7 +501,7 @@ def main(ctx):
         for l, o in zip(tlines, tout):
             ctx.count()
             _, sc, n, v = l.split()
-            m = re.match(r"res=(\S+) ticks=(\d+) bad=(\d+) st=(\S+) after=(\S+) ticks2=(\d+)$", o)
+            m = re.match(r"res=(\S+) ticks=(\d+) bad=(\d+) st=(\S+) after=(\S+) ticks2=(\d+) post=(\S+)$", o)
             sym = None
             if not m:
                 sym = "harness-error"
@@ -510,6 +513,8 @@ def main(ctx):
                 sym = "catch-or-finally-ran"
             elif m.group(4) != "0/0/0/0" or m.group(5) != "ok" or m.group(6) != "1":
                 sym = "unclean-after"
+            elif m.group(7) != "ok":
+                sym = m.group(7).split(":")[0]
             else:
                 ctx.nontriv(("tick", sc, n))
             if sym:
@@ -519,7 +524,7 @@ def main(ctx):
             if True:
                 ctx.violation("tickcase:%s:%s" % (sc, sym), "%s: %s -> %s (%d cases)" % (sym, l, o, len(lst)),
                               {"kind": "schedule", "lines": [l], "symptom": sym, "observed": o,
-                               "expected": "res=intr:%s ticks=%s bad=0 st=0/0/0/0 after=ok ticks2=1" % (l.split()[3], l.split()[2])})
+                               "expected": "res=intr:%s ticks=%s bad=0 st=0/0/0/0 after=ok ticks2=1 post=ok" % (l.split()[3], l.split()[2])})
     ctx.stats["tickcases"] = {"cases": len(tlines), "failing": {"%s/%s" % k: len(v) for k, v in tick_fail.items()}}
     ctx.log("deterministic part done: %d cases, %d disagreements, %d spec failures" % (len(all_cases), len(disagree), len(failing)))
     # 4. asynchronous soak
